@@ -1,0 +1,181 @@
+//go:build verif
+
+package graph
+
+// Contracts for the verification machinery in /verif (comment-only file; no code).
+
+// position of row j in the packed upper triangle: pairs (i,j), i<j, are stored at tri(j)+i
+//@ spec tri(j int) int = j * (j-1) / 2
+
+// (m+2)(m+1)/2 == (m+1)m/2 + (m+1), i.e. tri(j+1) == tri(j) + j with j = m+1
+//@ lemma triStep(m int)
+//@   requires 0 <= m
+//@   ensures (m+2) * (m+1) / 2 == (m+1) * m / 2 + (m+1)
+//@   by lean
+
+//@ lemma triMono(a int, b int)
+//@   requires 0 <= a && a < b
+//@   ensures tri(a) + a <= tri(b) && tri(a) >= 0
+//@   by induction b - a
+//@   use triStep(b-2)
+//@   use triStep(a-1)
+//@   pattern tri(a), tri(b)
+
+// abstract view of a dense graph
+//@ pred sizesDense(g *DenseGraph) = 0 <= g.NumberOfVertices && g.NumberOfVertices <= 16777216 && len(g.Edges) == tri(g.NumberOfVertices) && len(g.DegreeSequence) == g.NumberOfVertices
+//@ pred edgeD(g *DenseGraph, i int, j int) = (i < j ? g.Edges[tri(j)+i] > 0 : (j < i ? g.Edges[tri(i)+j] > 0 : false))
+
+//@ func (DenseGraph).N
+//@   ensures result == g.NumberOfVertices
+//@ func (DenseGraph).M
+//@   ensures result == g.NumberOfEdges
+
+//@ func (DenseGraph).IsEdge
+//@   requires 0 <= g.NumberOfVertices && g.NumberOfVertices <= 16777216 && len(g.Edges) == tri(g.NumberOfVertices)
+//@   ensures result <==> (0 <= i && i < g.NumberOfVertices && 0 <= j && j < g.NumberOfVertices && (i < j ? g.Edges[tri(j)+i] > 0 : (j < i ? g.Edges[tri(i)+j] > 0 : false)))
+//@   opt lemmas=triMono
+
+// idx is injective on pairs a<b
+//@ lemma triInj(a int, b int, i int, j int)
+//@   requires 0 <= a && a < b && 0 <= i && i < j && tri(b) + a == tri(j) + i
+//@   ensures a == i && b == j
+//@   by smt using triMono
+
+//@ func NewDense
+//@   requires 0 <= n && n <= 16777216
+//@   panics when edges != nil && len(edges) != tri(n)
+//@   ensures sizesDense(result) && fresh(result) && result.NumberOfVertices == n
+//@   ensures fresh(result.Edges) && fresh(result.DegreeSequence)
+//@   ensures edges == nil ==> forall k in 0..tri(n): result.Edges[k] == 0
+//@   ensures edges != nil ==> forall k in 0..tri(n): result.Edges[k] == edges[k]
+//@   opt lemmas=triMono
+//@   opt wrapcounters=NumberOfEdges,DegreeSequence,degrees,m
+//@   loop 1
+//@     invariant 0 <= j && j <= n && index == tri(j) && len(edges) == tri(n) && len(degrees) == n
+//@     use triStep(j-1)
+//@     decreases n - j
+//@   loop 2
+//@     invariant 0 <= i && i <= j && j < n && index == tri(j) + i && len(edges) == tri(n) && len(degrees) == n
+//@     use triStep(j-1)
+//@     decreases j - i
+
+//@ func (DenseGraph).Degrees
+//@   ensures fresh(result) && len(result) == len(g.DegreeSequence)
+//@   ensures forall k in 0..len(result): result[k] == g.DegreeSequence[k]
+
+//@ func (*DenseGraph).AddEdge
+//@   requires sizesDense(g) && 0 <= i && i < g.NumberOfVertices && 0 <= j && j < g.NumberOfVertices
+//@   modifies g, g.Edges, g.DegreeSequence
+//@   ensures sizesDense(g) && g.NumberOfVertices == old(g.NumberOfVertices)
+//@   ensures forall a in 0..g.NumberOfVertices: forall b in 0..g.NumberOfVertices: edgeD(g, a, b) <==> (old(edgeD(g, a, b)) || (i != j && ((a == i && b == j) || (a == j && b == i))))
+//@   opt lemmas=triMono,triInj
+//@   opt wrapcounters=NumberOfEdges,DegreeSequence,degrees,m
+
+//@ func (*DenseGraph).RemoveEdge
+//@   requires sizesDense(g) && 0 <= i && i < g.NumberOfVertices && 0 <= j && j < g.NumberOfVertices
+//@   modifies g, g.Edges, g.DegreeSequence
+//@   ensures sizesDense(g) && g.NumberOfVertices == old(g.NumberOfVertices)
+//@   ensures forall a in 0..g.NumberOfVertices: forall b in 0..g.NumberOfVertices: edgeD(g, a, b) <==> (old(edgeD(g, a, b)) && !((a == i && b == j) || (a == j && b == i)))
+//@   opt lemmas=triMono,triInj
+//@   opt wrapcounters=NumberOfEdges,DegreeSequence,degrees,m
+
+//@ func (DenseGraph).Neighbours
+//@   requires 0 <= g.NumberOfVertices && g.NumberOfVertices <= 16777216 && len(g.Edges) == tri(g.NumberOfVertices) && len(g.DegreeSequence) == g.NumberOfVertices
+//@   requires 0 <= v && v < g.NumberOfVertices && 0 <= g.DegreeSequence[v] && g.DegreeSequence[v] <= 16777216
+//@   ensures fresh(result)
+//@   ensures forall k in 0..len(result): forall l in k+1..len(result): result[k] < result[l]
+//@   ensures forall k in 0..len(result): 0 <= result[k] && result[k] < g.NumberOfVertices && result[k] != v && (result[k] < v ? g.Edges[tri(v)+result[k]] > 0 : g.Edges[tri(result[k])+v] > 0)
+//@   ensures forall u in 0..v: g.Edges[tri(v)+u] > 0 ==> exists k in 0..len(result): result[k] == u
+//@   ensures forall u in v+1..g.NumberOfVertices: g.Edges[tri(u)+v] > 0 ==> exists k in 0..len(result): result[k] == u
+//@   opt lemmas=triMono
+//@   loop 1
+//@     invariant 0 <= i && i <= v && tmp == tri(v)
+//@     invariant forall k in 0..len(r): forall l in k+1..len(r): r[k] < r[l]
+//@     invariant forall k in 0..len(r): 0 <= r[k] && r[k] < i && g.Edges[tri(v)+r[k]] > 0
+//@     invariant forall u in 0..i: g.Edges[tri(v)+u] > 0 ==> exists k in 0..len(r): r[k] == u
+//@     decreases v - i
+//@   loop 2
+//@     invariant v + 1 <= i && i <= g.NumberOfVertices
+//@     invariant forall k in 0..len(r): forall l in k+1..len(r): r[k] < r[l]
+//@     invariant forall k in 0..len(r): 0 <= r[k] && r[k] < i && r[k] != v
+//@     invariant forall k in 0..len(r): r[k] < v ==> g.Edges[tri(v)+r[k]] > 0
+//@     invariant forall k in 0..len(r): r[k] > v ==> g.Edges[tri(r[k])+v] > 0
+//@     invariant forall u in 0..v: g.Edges[tri(v)+u] > 0 ==> exists k in 0..len(r): r[k] == u
+//@     invariant forall u in v+1..i: g.Edges[tri(u)+v] > 0 ==> exists k in 0..len(r): r[k] == u
+//@     decreases g.NumberOfVertices - i
+
+//@ func (*DenseGraph).Copy
+//@   requires sizesDense(g)
+//@   ensures fresh(result) && sizesDense(as_DenseGraph(result)) && fresh(as_DenseGraph(result).Edges) && fresh(as_DenseGraph(result).DegreeSequence)
+//@   ensures as_DenseGraph(result).NumberOfVertices == g.NumberOfVertices && as_DenseGraph(result).NumberOfEdges == g.NumberOfEdges
+//@   ensures forall k in 0..len(g.Edges): as_DenseGraph(result).Edges[k] == g.Edges[k]
+//@   ensures forall k in 0..len(g.DegreeSequence): as_DenseGraph(result).DegreeSequence[k] == g.DegreeSequence[k]
+
+//@ pred inInts(x int, s []int) = exists k in 0..len(s): s[k] == x
+
+//@ func (*DenseGraph).AddVertex
+//@   requires sizesDense(g) && g.NumberOfVertices < 16777216 && ref(neighbours) != ref(g.DegreeSequence)
+//@   requires forall k in 0..len(neighbours): 0 <= neighbours[k] && neighbours[k] < g.NumberOfVertices
+//@   modifies g, g.Edges, g.DegreeSequence
+//@   ensures sizesDense(g) && g.NumberOfVertices == old(g.NumberOfVertices) + 1
+//@   ensures forall k in 0..tri(old(g.NumberOfVertices)): g.Edges[k] == old(g.Edges)[k]
+//@   ensures forall u in 0..old(g.NumberOfVertices): g.Edges[tri(old(g.NumberOfVertices)) + u] > 0 <==> inInts(u, neighbours)
+//@   opt lemmas=triMono
+//@   opt wrapcounters=NumberOfEdges,DegreeSequence
+//@   use triStep(g.NumberOfVertices - 1)
+//@   loop 1
+//@     invariant oldSize <= i && i <= newSize && oldSize == tri(old(g.NumberOfVertices)) && newSize == oldSize + old(g.NumberOfVertices)
+//@     invariant g.NumberOfVertices == old(g.NumberOfVertices) && len(g.Edges) == newSize && ref(g.Edges) == ref(old(g.Edges)) && off(g.Edges) == off(old(g.Edges)) && len(g.DegreeSequence) == g.NumberOfVertices && sameslice(g.DegreeSequence, old(g.DegreeSequence))
+//@     invariant forall k in 0..oldSize: g.Edges[k] == old(g.Edges)[k]
+//@     invariant forall k in oldSize..i: g.Edges[k] == 0
+//@     decreases newSize - i
+//@   loop 2
+//@     invariant -1 <= rangeindex && (rangeindex < len(neighbours) || (len(neighbours) == 0 && rangeindex == -1))
+//@     invariant oldSize == tri(old(g.NumberOfVertices)) && newSize == oldSize + old(g.NumberOfVertices)
+//@     invariant g.NumberOfVertices == old(g.NumberOfVertices) && len(g.Edges) == newSize && len(g.DegreeSequence) == g.NumberOfVertices && sameslice(g.DegreeSequence, old(g.DegreeSequence))
+//@     invariant forall k in 0..oldSize: g.Edges[k] == old(g.Edges)[k]
+//@     invariant forall u in 0..old(g.NumberOfVertices): g.Edges[oldSize + u] > 0 <==> (exists t in 0..rangeindex+1: neighbours[t] == u)
+//@     decreases len(neighbours) - rangeindex
+
+// L1 (sizes, freshness, index safety, termination); the edge relation of the
+// result is covered by the bounded stand-in.
+//@ func (*DenseGraph).InducedSubgraph
+//@   requires sizesDense(g) && len(V) <= 16777216
+//@   requires forall k in 0..len(V): 0 <= V[k] && V[k] < g.NumberOfVertices
+//@   ensures fresh(result) && sizesDense(as_DenseGraph(result)) && as_DenseGraph(result).NumberOfVertices == len(V)
+//@   ensures fresh(as_DenseGraph(result).Edges) && fresh(as_DenseGraph(result).DegreeSequence)
+//@   opt lemmas=triMono
+//@   opt wrapcounters=m,degrees
+//@   loop 1
+//@     invariant 1 <= j && (j <= len(V) || (len(V) == 0 && j == 1)) && index == tri(j) && n == len(V) && len(edges) == tri(n) && len(degrees) == n
+//@     use triStep(j-1)
+//@     decreases len(V) - j
+//@   loop 2
+//@     invariant 0 <= i && i <= j && 1 <= j && j < len(V) && index == tri(j) + i && n == len(V) && len(edges) == tri(n) && len(degrees) == n
+//@     use triStep(j-1)
+//@     decreases j - i
+
+// L1: no panic beyond the documented one, sizes re-established, termination
+//@ func (*DenseGraph).RemoveVertex
+//@   requires sizesDense(g) && 0 <= v
+//@   panics when v >= g.NumberOfVertices
+//@   modifies g, g.Edges, g.DegreeSequence
+//@   ensures sizesDense(g) && g.NumberOfVertices == old(g.NumberOfVertices) - 1
+//@   opt lemmas=triMono
+//@   opt wrapcounters=NumberOfEdges,DegreeSequence
+//@   use triStep(v-1)
+//@   use triStep(g.NumberOfVertices-2)
+//@   loop 1
+//@     invariant 0 <= i && i <= v && tmp == tri(v) && v < g.NumberOfVertices && sizesDense(g) && g.NumberOfVertices == old(g.NumberOfVertices) && sameslice(g.Edges, old(g.Edges)) && sameslice(g.DegreeSequence, old(g.DegreeSequence))
+//@     decreases v - i
+//@   loop 2
+//@     invariant v + 1 <= i && i <= g.NumberOfVertices && v < g.NumberOfVertices && sizesDense(g) && g.NumberOfVertices == old(g.NumberOfVertices) && sameslice(g.Edges, old(g.Edges)) && sameslice(g.DegreeSequence, old(g.DegreeSequence))
+//@     decreases g.NumberOfVertices - i
+//@   loop 3
+//@     invariant v + 1 <= j && j <= g.NumberOfVertices && g.NumberOfVertices == old(g.NumberOfVertices) && 0 <= v && sameslice(g.Edges, old(g.Edges)) && len(g.Edges) == tri(g.NumberOfVertices) && g.NumberOfVertices <= 16777216 && len(g.DegreeSequence) == g.NumberOfVertices - 1
+//@     invariant (j == v+1 && oldIndex == tri(v+1) - 1 && newIndex == tri(v)) || (j > v+1 && oldIndex == tri(j-1) + v && newIndex == tri(j-2) + v)
+//@     use triStep(j-1)
+//@     use triStep(j-2)
+//@     use triStep(j-3)
+//@     use triStep(v-1)
+//@     decreases g.NumberOfVertices - j
